@@ -149,7 +149,7 @@ def check_partition(sink, repo, folder, ma_cls, dn, de, basic, scen):
     for entry in scen:
         ops, xt = entry if (len(entry) == 2 and isinstance(entry[0], tuple)) else (entry, None)
         paths = [p for p in fm.run_block_model(repo, folder, ma_cls, dn, de, basic, ops, exc_table=xt,
-                                                   max_paths=6000 if xt is None else 400) if p.entered]
+                                                   max_paths=6000 if xt is None else 2500) if p.entered]
         if not paths:
             raise AnalysisError("MethodAnalysis.__init__ never reaches _create_basic_block in the model")
         sink.count("partition_paths", len(paths))
